@@ -4,11 +4,16 @@ usage: seeded_matrix.py [PID ...]   (only for claimed checks)"""
 import os, sys, subprocess, json, glob, re
 VERIF = os.path.dirname(os.path.dirname(os.path.abspath(__file__)))
 REPO = os.environ.get('VERIF_REPO', '/repo')      # a scratch copy while other runs read /repo
-sel = [a.upper() for a in sys.argv[1:]]
+args = sys.argv[1:]
+shard = None
+if args and args[0].startswith('--shard='):
+    shard = tuple(int(x) for x in args.pop(0)[8:].split('/'))          # --shard=i/n : every n-th change starting with the i-th
+sel = [a.upper() for a in args]
 man = json.load(open(os.path.join(VERIF, 'MANIFEST.json')))
 claimed = {c['property_id'] for c in man['checks']}
 rows = []
-for d in sorted(glob.glob(os.path.join(VERIF, 'seeded', 'C*_*'))):
+for k, d in enumerate(sorted(glob.glob(os.path.join(VERIF, 'seeded', 'C*_*')))):
+    if shard is not None and k % shard[1] != shard[0]: continue
     name = os.path.basename(d); pid = name.split('_')[0]
     if sel and pid not in sel and name.upper() not in sel: continue
     if pid not in claimed and not os.path.exists(os.path.join(VERIF, 'vf/checks/%s.py' % pid.lower())): continue
